@@ -1482,6 +1482,11 @@ STATEMENTS = {
 	'header_slice': "for every header, body and every prefix in which the tag does not start, the text try_from_content hands to from_json is exactly ' ' + to_json()",
 	'header_rt': "try_from_content(pre + to_header_str() + '\\n' + body) == header, given that json.loads decodes this header's JSON (parser not modelled)",
 	'header_rt_no_newline_counterexample': 'without a line break after the header line the slice loses the closing brace (find() = -1 is taken as an end bound by rfind): statement false',
+	'generated_shapes': 'the statements of can_transpile / MetaHeader (__eq__, identity, to_json, __init__, from_json, to_header_str, try_from_content) / module_meta_factory / Py2Cpp.meta / try_load_meta_header / _run_impl / Config.force, read from the source by the translator on every run, are the ones the model implements',
+	'compared_fields_generated': 'the header the model builds has exactly the generated compared fields (version, module.hash, module.path, transpiler.version, transpiler.module) and they carry the current inputs',
+	'skip_implies_equal_header_inputs': 'a skipped module has a parsable stored header with the identity of the current header; with md5 collision-free on the two texts and json.loads decoding them every generated compared field equals the current input',
+	'shipped_versions_nonempty': 'the version constants read from data/version.py are non-empty (the VersNonEmpty hypothesis holds for the shipped release)',
+	'paths_fallback_only_noOverlap': 'the path hypothesis of the history theorems (NoOverlap) holds for every fallback-only output_dirs and every duplicate-free list of clean module paths',
 	'regen': 'target selection: a module is regenerated iff it is listed and (effective force ∨ no file ∨ no header ∨ recorded header identity ≠ current); order kept',
 	'untouched': 'a path the Writer is not invoked with keeps bytes and mtime; the Writer is invoked only with paths of selected targets',
 	'force_flag': "`-f` always forces (args.force or config.get('force', False)): run -f transpiles and writes every module, whatever the config file says",
@@ -1509,16 +1514,33 @@ def build_searches(ctx: Ctx) -> list[SearchResult]:
 	return [search_roundtrip(ctx), search_paths(ctx), search_force(ctx), search_fixpoint(ctx)]
 
 
+def translate(ctx: Ctx) -> tuple[bool, str]:
+	"""What the regeneration decision compares, read from the source on every run (translate/gen_runner_header.py →
+	Generated/RunnerHeader.lean); a shape the translator does not recognise breaks the tie."""
+	import sys
+	with ctx.timed('translate'):
+		try:
+			from translate import gen_runner_header
+			ctx.generated_tables.extend(gen_runner_header.generate())
+			return True, ''
+		except Exception as e:  # noqa: BLE001
+			msg = f'{type(e).__name__}: {e}'
+			ctx.notes.append(f'translator failed: {msg}')
+			print(f'[{ctx.prop}] translator failed (the tie is broken): {msg}', file=sys.stderr)
+			return False, msg
+
+
 def run(ctx: Ctx) -> int:
+	translate_ok, translate_msg = translate(ctx)
 	proof = common.prove(ctx, PROP, leanchecker=ctx.thorough)
 	with ctx.timed('correspondence'):
 		streams = build_streams(ctx)
 	with ctx.timed('search'):
 		searches = build_searches(ctx)
-	return common.finish(ctx, proof, streams, searches,
+	return common.finish(ctx, proof, streams, searches, translate_ok=translate_ok, translate_msg=translate_msg,
 		statements=STATEMENTS,
 		partial={
-			'proved': 'header read-back (header_slice, header_rt over the real json.dumps printer; json_no_newline, json_ends_with_brace), regeneration decision (regen), '
+			'proved': 'the decision compares exactly the header fields read from the source (generated_shapes, compared_fields_generated, skip_implies_equal_header_inputs over Generated/RunnerHeader.lean); header read-back (header_slice, header_rt over the real json.dumps printer; json_no_newline, json_ends_with_brace), regeneration decision (regen), '
 				'untouched files (untouched), path-injectivity check (paths_iff, paths_fallback_only), fix-point over all histories on every non-stale path for any transpiler body (fixpoint_fresh_partial, fixpoint_fresh, corollary fixpoint_partial), version change (version_bump), exact module lookup of the header hash (meta_lookup_exact, meta_lookup_first), '
 				'flag semantics (force_flag, force_config) — all on the model',
 			'proved_false': 'fix-point law in general (fixpoint_counterexample: stale dependants; fixpoint_shared_path_counterexample), '
@@ -1534,7 +1556,7 @@ def run(ctx: Ctx) -> int:
 			'glob conditions use only [A-Za-z0-9_/-.*]: other regex metacharacters answer out-of-model',
 			'JSON values without floats / NaN / lone surrogates',
 		],
-		trusted=['posixpath.join/normpath/abspath and str.find/rfind/slicing are modelled by hand and tied by the strprims and paths streams',
+		trusted=['translate/gen_runner_header.py (AST reader of header.py, types.py, providers/module.py, py2cpp.py, version.py, bin/transpile.py; unknown shapes raise TranslateError)', 'posixpath.join/normpath/abspath and str.find/rfind/slicing are modelled by hand and tied by the strprims and paths streams',
 			'yaml loading of config.yml, glob order of include_module_paths (taken from the real function), Jinja rendering of entrypoint.j2 (first line observed)'])
 
 
